@@ -176,6 +176,57 @@ pub fn walk_adaptors<'a>(section: &'a [u8], mk: &dyn Fn() -> TypeLengthValues<'a
     if !ok {
         return fail("last", format!("last() = {}", if n == 0 { "None".to_string() } else { format!("{:?}", want[n - 1]) }), show_item(l.as_ref()));
     }
+    // the same consumers called directly (method syntax on the value, which an inherent method of the same name would
+    // intercept) on an iterator that has already yielded k items: they describe what is LEFT, not the whole section
+    let mut ks2: Vec<usize> = vec![1, n / 2, n.saturating_sub(1), n, n + 1];
+    ks2.sort();
+    ks2.dedup();
+    for &k in &ks2 {
+        let left = n.saturating_sub(k);
+        let adv = || {
+            let mut it = mk();
+            for _ in 0..k {
+                let _ = it.next();
+            }
+            it
+        };
+        let c = adv().count();
+        if c != left {
+            return fail("count-after-next", format!("after {} x next(): count() = {}", k, left), format!("{}", c));
+        }
+        let l = adv().last();
+        let ok = if left == 0 { l.is_none() } else { same_item(section, &want[n - 1], l.as_ref()) };
+        if !ok {
+            return fail("last-after-next", format!("after {} x next(): last() = {}", k, if left == 0 { "None".to_string() } else { format!("{:?}", want[n - 1]) }), show_item(l.as_ref()));
+        }
+        let (lo, hi) = adv().size_hint();
+        if lo > left || hi.map_or(false, |h| h < left) {
+            return fail("size_hint-after-next", format!("after {} x next(): bounds that contain {}", k, left), format!("({}, {:?})", lo, hi));
+        }
+        let v: Vec<_> = adv().collect();
+        let f = adv().fold(0usize, |a, _| a + 1);
+        let mut fe = 0usize;
+        adv().for_each(|_| fe += 1);
+        let mut it = adv();
+        let found = it.find(|_| false).is_some();
+        let any = adv().any(|_| false);
+        let all = adv().all(|_| true);
+        let pos = adv().position(|_| false);
+        let mx = adv().enumerate().map(|(i, _)| i).max();
+        if v.len() != left || f != left || fe != left || found || any || !all || pos.is_some() || mx != left.checked_sub(1) || v.iter().enumerate().any(|(j, g)| !same_item(section, &want[k + j], Some(g))) {
+            return fail(
+                "consumers-after-next",
+                format!("after {} x next(): the {} items left through collect / fold / for_each / find / any / all / position / max", k, left),
+                format!("collect {}, fold {}, for_each {}, find {}, any {}, all {}, position {:?}, max index {:?}", v.len(), f, fe, found, any, all, pos, mx),
+            );
+        }
+        let mut it = adv();
+        let got = it.nth(1);
+        let ok = if k + 1 < n { same_item(section, &want[k + 1], got.as_ref()) } else { got.is_none() };
+        if !ok {
+            return fail("nth-after-next", format!("after {} x next(): nth(1) = item {}", k, k + 1), show_item(got.as_ref()));
+        }
+    }
     let f = mk().fold(0usize, |a, _| a + 1);
     let v: Vec<_> = mk().collect();
     let mut fe = 0usize;
@@ -284,7 +335,24 @@ pub fn judge_header(x: &Vec<u8>, st: &mut Stats) -> Verdict {
 }
 
 fn gen_slice(t: &mut Tape) -> Vec<u8> {
-    match t.weighted(&[4, 3, 2, 1, 1]) {
+    match t.weighted(&[8, 6, 4, 2, 2, 1, 2]) {
+        5 => {
+            let mut s = if t.coin() { gen::enc_tlv_list(&gen::gen_tlv_list(t, 200)) } else { vec![] };
+            s.extend(gen::deep_nested_tlv(t, 69_000));
+            s
+        }
+        6 => {
+            // one item's length written little-endian, the last item favoured (see gen::gen_tlv_section)
+            let room = if t.chance(1, 8) { 70_000 } else { 600 };
+            let list = gen::gen_tlv_list(t, room);
+            let mut s = gen::enc_tlv_list(&list);
+            if !list.is_empty() {
+                let i = if t.chance(2, 3) { list.len() - 1 } else { t.below(list.len() as u32) as usize };
+                let off: usize = list[..i].iter().map(|(_, v)| 3 + v.len()).sum();
+                s.swap(off + 1, off + 2);
+            }
+            s
+        }
         4 => {
             // a section that itself begins with (or is) a complete v2 header - read as TLVs it is type 0x0D with
             // length 0x0A0D - optionally padded so that this first "TLV" is complete, then more TLVs
@@ -349,6 +417,47 @@ fn gen_slice(t: &mut Tape) -> Vec<u8> {
     }
 }
 
+/// Sections built around one item of type `kind` (stage `c11.types`).
+fn type_shapes(kind: u8) -> Vec<Vec<u8>> {
+    let mut out = Vec::new();
+    for &len in &[0usize, 1, 2, 3, 4, 5, 8, 16, 20, 32, 128, 255, 256, 257, 258, 512, 513, 1280] {
+        let value = fill(0x7100 + len as u32 + kind as u32, len);
+        let be = (len as u16).to_be_bytes();
+        let le = (len as u16).to_le_bytes();
+        let mut cores: Vec<Vec<u8>> = Vec::new();
+        let mk = |l: [u8; 2], v: &[u8]| {
+            let mut s = vec![kind, l[0], l[1]];
+            s.extend_from_slice(v);
+            s
+        };
+        cores.push(mk(be, &value)); // exact
+        if len > 0 {
+            cores.push(mk(be, &value[..len - 1])); // one byte short
+        }
+        let mut longer = value.clone();
+        longer.push(0x5a);
+        cores.push(mk(be, &longer)); // one spare byte
+        cores.push(mk(le, &value)); // little-endian length, value fits exactly
+        cores.push(mk(le, &longer)); // little-endian length, one spare byte
+        if len > 0 {
+            cores.push(mk(le, &value[..len - 1]));
+        }
+        cores.push(vec![kind, be[0], be[1]]); // head only
+        cores.push(vec![kind, le[0]]);
+        cores.push(vec![kind]);
+        for c in cores {
+            let mut pre = vec![0x04, 0x00, 0x01, 0x00];
+            pre.extend_from_slice(&c);
+            let mut post = c.clone();
+            post.extend_from_slice(&[0x01, 0x00, 0x02, b'h', b'2']);
+            out.push(c);
+            out.push(pre);
+            out.push(post);
+        }
+    }
+    out
+}
+
 const ALPHA: [u8; 6] = [0x00, 0x01, 0x02, 0x03, 0x04, 0xFF];
 
 pub fn run(r: &mut Runner) -> &'static str {
@@ -398,5 +507,22 @@ pub fn run(r: &mut Runner) -> &'static str {
     };
     let space = format!("all byte strings over {{00,01,02,03,04,FF}} of length 0..={}", maxlen);
     r.bulk("c11.alphabet", Some(&space), &work, &judge_slice);
+
+    // every type byte x a fixed list of section shapes: a rule that depends on the type code (a vendor's code, a range of
+    // codes) meets every shape - complete, one byte short / long, length written little-endian and fitting exactly, ...
+    let work_types = |shard: usize, nshards: usize, st: &mut Stats, stop: &AtomicBool| -> Option<(Vec<u8>, Fail)> {
+        for kind in (shard..256).step_by(nshards) {
+            if stop.load(Ordering::Relaxed) {
+                return None;
+            }
+            for v in type_shapes(kind as u8) {
+                if let Err(f) = judge_slice(&v, st) {
+                    return Some((v, f));
+                }
+            }
+        }
+        None
+    };
+    r.bulk("c11.types", Some("all 256 type bytes x 18 value lengths x 9 section shapes (exact, one byte short, one byte long, little-endian length that fits exactly / with a spare byte, header only) x {alone, behind a NOOP item, followed by an item}"), &work_types, &judge_slice);
     "exploration"
 }
